@@ -10,7 +10,7 @@ def one(sid):
     try:
         dst=os.path.join(tmp,'repo')
         shutil.copytree('/repo',dst,ignore=shutil.ignore_patterns('.git','__pycache__','.ruff_cache','.benchmarks','*.egg-info','img','oneliner_tests'))
-        r=subprocess.run(['patch','-p1','-s','-i',os.path.join(d,'patch.diff')],cwd=dst,capture_output=True,text=True)
+        r=subprocess.run(['patch','-p1','-s','--no-backup-if-mismatch','-i',os.path.join(d,'patch.diff')],cwd=dst,capture_output=True,text=True)
         if r.returncode: return sid,{'error':'patch failed'}
         res={}
         for p in [f'C{i:02d}' for i in range(1,18)]:
